@@ -1010,7 +1010,8 @@ impl<F, E, I: TargetDim> Dataset<F, E, I> {
 
         // split weights into two disjoint Vec
         let second_weights = if self.weights.len() == n1 + n2 {
-            let mut weights = self.weights.into_raw_vec();
+            // in logical order: the raw buffer of a sliced or reversed weight array is not
+            let mut weights = self.weights.to_vec();
 
             let weights2 = weights.split_off(n1);
             self.weights = Array1::from(weights);
